@@ -1,0 +1,13 @@
+//go:build verif
+
+package grpcbridge
+
+import "net/http"
+
+// Exports of the unexported dispatch predicates of WebBridge.ServeHTTP for the external verification harness (tag "verif" only).
+
+func VerifHeaderHasToken(h http.Header, name, token string) bool {
+	return headerHasToken(h, name, token)
+}
+
+func VerifIsGRPCWebContentType(ct string) bool { return isGRPCWebContentType(ct) }
